@@ -3,6 +3,9 @@
   ret   every `return <expression>` becomes `_ret = <expression>; return _ret`
   first every function starts with a no-op assignment (all statements move)
   both
+  cond  `if c: A else: B` becomes `if not c: B else: A`
+  cmp   `a is not b` / `a != b` / `a not in b` become `not (a is b)` / `not (a == b)` / `not (a in b)`
+  all   everything above
 and every claimed check must still exit 0 on the result.  Comments and layout are lost by unparse, which is part of the twin.
 Usage: selftest/shape_twins.py [--kind ret|first|both] [--checks C04,C12] [--keep DIR]
 Exit 0 when every check is silent; exit 2 otherwise (a defect of the checker, never a verdict about /repo)."""
@@ -29,7 +32,7 @@ class Reshape(ast.NodeTransformer):
         self.depth += 1
         self.generic_visit(node)
         self.depth -= 1
-        if self.kind in ("first", "both"):
+        if self.kind in ("first", "both", "all"):
             k = 1 if (node.body and isinstance(node.body[0], ast.Expr) and isinstance(node.body[0].value, ast.Constant)
                       and isinstance(node.body[0].value.value, str)) else 0
             marker = ast.Assign(targets=[ast.Name(id="_twin_marker", ctx=ast.Store())], value=ast.Constant(value=None), lineno=0)
@@ -39,13 +42,30 @@ class Reshape(ast.NodeTransformer):
     def _block(self, stmts):
         out = []
         for s in stmts:
-            if isinstance(s, ast.Return) and s.value is not None and not isinstance(s.value, (ast.Name, ast.Constant)) and self.kind in ("ret", "both") \
+            if isinstance(s, ast.Return) and s.value is not None and not isinstance(s.value, (ast.Name, ast.Constant)) and self.kind in ("ret", "both", "all") \
                     and self.depth > 0:
                 out.append(ast.Assign(targets=[ast.Name(id="_ret", ctx=ast.Store())], value=s.value, lineno=0))
                 out.append(ast.Return(value=ast.Name(id="_ret", ctx=ast.Load())))
             else:
                 out.append(s)
         return out
+
+    def visit_If(self, node):
+        self.generic_visit(node)
+        if self.kind in ("cond", "all") and node.body and node.orelse and not (len(node.orelse) == 1 and isinstance(node.orelse[0], ast.If)):
+            # `if c: A else: B`  ->  `if not c: B else: A`
+            node.test = ast.UnaryOp(op=ast.Not(), operand=node.test)
+            node.body, node.orelse = node.orelse, node.body
+        return node
+
+    def visit_Compare(self, node):
+        self.generic_visit(node)
+        if self.kind in ("cmp", "all") and len(node.ops) == 1:
+            flip = {ast.IsNot: ast.Is, ast.NotEq: ast.Eq, ast.NotIn: ast.In}
+            for neg, pos in flip.items():
+                if isinstance(node.ops[0], neg):
+                    return ast.UnaryOp(op=ast.Not(), operand=ast.Compare(left=node.left, ops=[pos()], comparators=node.comparators))
+        return node
 
     def generic_visit(self, node):
         super().generic_visit(node)
